@@ -468,3 +468,7 @@ def dict_eq(a, b):
 
 def forall_keys(d, f):
     return all(f(k) for k in (d or {}))
+
+
+def dict_wf(d):
+    return True
